@@ -49,6 +49,9 @@ def build():
     A(Op("gamma", lambda x, a: x.spec.gamma(), needs_dir=False, min_nf=3, peak=True))
     A(Op("stats", lambda x, a: x.spec.stats(["hs", "tm01", "tm02"]), scale="skip"))
     A(Op("smooth", lambda x, a: x.spec.smooth(3, 3), kind="spectra", min_nf=3, scale="lin", rot="relabel"))
+    A(Op("smooth11", lambda x, a: x.spec.smooth(1, 1), kind="spectra", scale="lin", rot="relabel"))
+    A(Op("smooth15", lambda x, a: x.spec.smooth(1, 5), kind="spectra", scale="lin", rot="relabel"))
+    A(Op("smooth31", lambda x, a: x.spec.smooth(3, 1), kind="spectra", min_nf=3, scale="lin", rot="relabel"))
     A(Op("interp", lambda x, a: x.spec.interp(freq=a["freq_t"], dir=a["dir_t"]), kind="spectra", min_nf=2, scale="lin", rot="skip"))
     A(Op("interp_freq", lambda x, a: x.spec.interp(freq=a["freq_t"]), kind="spectra", needs_dir=False, min_nf=2, scale="lin", rot="relabel"))
     A(Op("rotate", lambda x, a: x.spec.rotate(a["angle"]), kind="spectra", scale="lin", rot="relabel"))
@@ -58,6 +61,7 @@ def build():
     A(Op("ptm1", lambda x, a: x.spec.partition.ptm1(a["wspd"], a["wdir"], a["dpt"], swells=a["swells"]), kind="parts", watershed=True, needs_wind=True, min_nf=2, scale="lin", rot="skip"))
     A(Op("ptm2", lambda x, a: x.spec.partition.ptm2(a["wspd"], a["wdir"], a["dpt"], swells=a["swells"]), kind="parts", watershed=True, needs_wind=True, min_nf=2, scale="lin", rot="skip"))
     A(Op("ptm3", lambda x, a: x.spec.partition.ptm3(parts=a["swells"] + 1), kind="parts", watershed=True, min_nf=2, scale="lin", rot="relabel"))
+    A(Op("ptm3_smooth", lambda x, a: x.spec.partition.ptm3(parts=a["swells"] + 1, smooth=True, freq_window=1, dir_window=1), kind="parts", watershed=True, min_nf=2, scale="lin", rot="relabel"))
     A(Op("ptm4", lambda x, a: x.spec.partition.ptm4(a["wspd"], a["wdir"], a["dpt"], agefac=a["agefac"]), kind="parts", needs_wind=True, scale="lin", rot="skip"))
     A(Op("ptm5", lambda x, a: x.spec.partition.ptm5(a["fcut"]), kind="parts", needs_dir=False, min_nf=3, scale="lin", rot="relabel"))
     A(Op("bbox", lambda x, a: x.spec.partition.bbox(a["bboxes"]), kind="parts", min_nf=2, scale="lin", rot="skip"))
